@@ -33,6 +33,7 @@ type Scope struct {
 	body   []*Stmt
 	result *Expr
 	uses   map[string]bool
+	avoid  string   // a name of the enclosing scopes that this block mentions only as its catch variable
 	kids   []*Scope // blocks written directly in this scope (not nested functions)
 	fns    []*Scope // nested function literals written directly in this scope
 }
@@ -84,15 +85,33 @@ func genScope(parent *Scope, depth int, nparams int, isFn bool) *Scope {
 	} else if parent != nil {
 		parent.kids = append(parent.kids, s)
 	}
+	if !isFn && parent != nil && r.Intn(4) == 0 {
+		// "only mention is the catch clause": pick a value name an enclosing scope uses
+		var cands []string
+		for _, n := range []string{"x", "y", "z", "e"} {
+			for q := parent; q != nil; q = q.parent {
+				if q.uses[n] {
+					cands = append(cands, n)
+					break
+				}
+			}
+		}
+		if len(cands) > 0 {
+			s.avoid = cands[r.Intn(len(cands))]
+		}
+	}
 	for i := 0; i < nparams; i++ {
 		p := names[r.Intn(3)]
+		if p == s.avoid {
+			continue
+		}
 		if !isParam(s, p) {
 			s.params = append(s.params, p)
 			s.uses[p] = true
 		}
 	}
 	for _, nm := range names[:5] {
-		if r.Intn(3) == 0 && !isParam(s, nm) {
+		if r.Intn(3) == 0 && !isParam(s, nm) && nm != s.avoid {
 			var e *Expr
 			if nm == "f" || nm == "g" {
 				if depth > 0 {
@@ -107,11 +126,48 @@ func genScope(parent *Scope, depth int, nparams int, isFn bool) *Scope {
 			s.body = append(s.body, &Stmt{kind: "=", name: nm, e: e})
 		}
 	}
-	n := 1 + r.Intn(3)
+	if isFn && parent != nil && depth > 0 && r.Intn(2) == 0 {
+		// a nested function that calls a block of its own containing `return`
+		// (early return out of the block must leave exactly this function)
+		fname := names[3+r.Intn(2)]
+		blk := genScope(s, depth-1, 1, false)
+		hasRet := false
+		for _, st := range blk.body {
+			hasRet = hasRet || st.kind == "r"
+		}
+		if !hasRet {
+			at := r.Intn(len(blk.body) + 1)
+			st := &Stmt{kind: "r", e: genExpr(blk, 0, false)}
+			blk.body = append(blk.body[:at], append([]*Stmt{st}, blk.body[at:]...)...)
+		}
+		s.uses[fname] = true
+		s.body = append(s.body, &Stmt{kind: "=", name: fname, e: &Expr{kind: "block", blk: blk}})
+		v := []string{"x", "y", "z", "e"}[r.Intn(4)]
+		s.uses[v] = true
+		s.body = append(s.body, &Stmt{kind: "=", name: v,
+			e: &Expr{kind: "call", name: fname, a: &Expr{kind: "num", n: r.Intn(5)}}})
+	}
+	n := 1 + r.Intn(4)
 	readNext := ""
 	for i := 0; i < n; i++ {
-		name := names[r.Intn(len(names))]
+		// mostly value names; f and g mostly hold blocks / functions so that calls succeed
+		name := []string{"x", "y", "z", "e"}[r.Intn(4)]
+		for name == s.avoid {
+			name = []string{"x", "y", "z", "e"}[r.Intn(4)]
+		}
 		st := &Stmt{kind: "=", name: name}
+		if s.avoid != "" && i == 0 {
+			// try { name = <fails> } catch (avoid) { }
+			fname := names[3+r.Intn(2)]
+			s.uses[fname] = true
+			st.kind = "t"
+			st.e = &Expr{kind: "add", a: &Expr{kind: "num", n: r.Intn(5)}, b: &Expr{kind: "var", name: fname}}
+			st.catch = s.avoid
+			s.uses[s.avoid] = true
+			s.uses[name] = true
+			s.body = append(s.body, st)
+			continue
+		}
 		switch k := r.Intn(20); {
 		case k < 3:
 			// conditional assignment: a later call can find the name uninitialized
@@ -119,42 +175,56 @@ func genScope(parent *Scope, depth int, nparams int, isFn bool) *Scope {
 			if len(s.params) > 0 && r.Intn(2) == 0 {
 				st.c = &Expr{kind: "var", name: s.params[0]}
 			} else {
-				st.c = genExpr(s, depth)
+				st.c = genExpr(s, depth, false)
 			}
-			st.e = genExpr(s, depth)
+			st.e = genExpr(s, depth, false)
 			if r.Intn(2) == 0 {
 				readNext = name
 			}
-		case k < 5:
+		case k < 6:
 			st.kind = "t"
-			st.e = genExpr(s, depth)
+			if r.Intn(2) == 0 {
+				// an addition that fails when f / g holds a block (or is not set)
+				fname := names[3+r.Intn(2)]
+				s.uses[fname] = true
+				st.e = &Expr{kind: "add", a: &Expr{kind: "num", n: r.Intn(5)}, b: &Expr{kind: "var", name: fname}}
+			} else {
+				st.e = genExpr(s, depth, true)
+			}
 			st.catch = names[r.Intn(3)]
 			if r.Intn(2) == 0 {
 				st.catch = "e"
 			}
 			s.uses[st.catch] = true
-		case k < 7:
+		case k < 8 || (k < 10 && parent != nil && !isFn):
 			st.kind = "r"
-			st.e = genExpr(s, depth)
+			st.e = genExpr(s, depth, false)
 			s.body = append(s.body, st)
 			continue
+		case k < 10 && depth > 0:
+			st.name = names[3+r.Intn(2)]
+			st.e = genLiteral(s, depth, 1)
+		case k < 11 && s.avoid == "":
+			st.name = names[r.Intn(len(names))]
+			st.e = genExpr(s, depth, true)
 		default:
-			st.e = genExpr(s, depth)
+			st.e = genExpr(s, depth, true)
 		}
-		s.uses[name] = true
+		s.uses[st.name] = true
 		s.body = append(s.body, st)
 	}
-	s.result = genExpr(s, depth)
 	if readNext != "" {
 		// read the conditionally assigned name afterwards
 		s.result = &Expr{kind: "var", name: readNext}
+	} else {
+		s.result = genExpr(s, depth, true)
 	}
 	return s
 }
 
 // genLiteral: a block, or (1 in 6) a nested function literal
 func genLiteral(s *Scope, depth, nparams int) *Expr {
-	if r.Intn(4) == 0 {
+	if r.Intn(3) == 0 {
 		return &Expr{kind: "fn", blk: genScope(s, depth-1, nparams, true)}
 	}
 	return &Expr{kind: "block", blk: genScope(s, depth-1, nparams, false)}
@@ -163,6 +233,15 @@ func genLiteral(s *Scope, depth, nparams int) *Expr {
 // pick prefers (4 times out of 5) a name already used in this scope or an enclosing one, so that
 // most programs run without "uninitialized variable"
 func pick(s *Scope, from []string) string {
+	if s.avoid != "" {
+		var f2 []string
+		for _, n := range from {
+			if n != s.avoid {
+				f2 = append(f2, n)
+			}
+		}
+		from = f2
+	}
 	if r.Intn(5) != 0 {
 		var known []string
 		for _, n := range from {
@@ -180,25 +259,27 @@ func pick(s *Scope, from []string) string {
 	return from[r.Intn(len(from))]
 }
 
-func genExpr(s *Scope, depth int) *Expr {
+// genExpr: lit says whether a block / function literal may stand here (right-hand side, call
+// argument, result) — not as an operand of +, which would only throw
+func genExpr(s *Scope, depth int, lit bool) *Expr {
 	switch k := r.Intn(10); {
 	case k < 2:
 		return &Expr{kind: "num", n: r.Intn(5)}
 	case k < 5:
 		name := pick(s, []string{"x", "y", "z", "e"})
-		if r.Intn(6) == 0 {
+		if r.Intn(8) == 0 {
 			name = pick(s, names)
 		}
 		s.uses[name] = true
 		return &Expr{kind: "var", name: name}
 	case k < 6:
-		return &Expr{kind: "add", a: genExpr(s, depth), b: genExpr(s, depth)}
+		return &Expr{kind: "add", a: genExpr(s, depth, false), b: genExpr(s, depth, false)}
 	case k < 8:
 		name := pick(s, names[3:5])
 		s.uses[name] = true
-		return &Expr{kind: "call", name: name, a: genExpr(s, depth)}
+		return &Expr{kind: "call", name: name, a: genExpr(s, depth, true)}
 	default:
-		if depth <= 0 {
+		if depth <= 0 || !lit {
 			return &Expr{kind: "num", n: 7}
 		}
 		return genLiteral(s, depth, r.Intn(2))
@@ -470,13 +551,20 @@ func eval(f *frame, e *Expr) any {
 		}
 		return c.v
 	case "add":
-		a, b := eval(f, e.a), eval(f, e.b)
-		x, ok1 := a.(int)
-		y, ok2 := b.(int)
-		if !ok1 || !ok2 {
-			panic("can't convert to number")
+		// the compiler flattens parenthesised nested additions into one left-to-right chain
+		// (compile/ast/folder.go commutative): a + (b + c) checks a + b before c is evaluated
+		ops := addOperands(e, nil)
+		acc := eval(f, ops[0])
+		for _, o := range ops[1:] {
+			v := eval(f, o)
+			x, ok1 := acc.(int)
+			y, ok2 := v.(int)
+			if !ok1 || !ok2 {
+				panic("can't convert to number")
+			}
+			acc = x + y
 		}
-		return x + y
+		return acc
 	case "call":
 		arg := eval(f, e.a)
 		c := f.cellOf(e.name)
@@ -502,6 +590,13 @@ func eval(f *frame, e *Expr) any {
 		return &function{s: e.blk}
 	}
 	panic("?")
+}
+
+func addOperands(e *Expr, out []*Expr) []*Expr {
+	if e.kind == "add" {
+		return addOperands(e.b, addOperands(e.a, out))
+	}
+	return append(out, e)
 }
 
 func refRun(s *Scope, arg int) (res string) {
@@ -646,7 +741,7 @@ func main() {
 	n := lib.N(4000)
 	for i := 0; i < n; i++ {
 		nscope = 0
-		s := genScope(nil, 1+r.Intn(3), r.Intn(2), true)
+		s := genScope(nil, 2+r.Intn(2), r.Intn(2), true)
 		src := s.src(false)
 		ref := refRun(s, 3)
 		if class(ref) == "ERR-loop" {
@@ -658,9 +753,14 @@ func main() {
 			continue
 		}
 		real := realRun(src, len(s.params), 3)
-		if strings.Contains(real, "compile error") || strings.Contains(real, "syntax error") ||
-			strings.Contains(real, "possibly uninitialized") || strings.Contains(real, "cannot do math on") {
+		if strings.Contains(real, "possibly uninitialized") || strings.Contains(real, "cannot do math on") ||
+			strings.Contains(real, "nested try not supported") {
+			// deliberate static checks of the compiler (PropFold, folder, parser)
 			t.Count("skipped:rejected-statically")
+			continue
+		}
+		if strings.Contains(real, "compile error") || strings.Contains(real, "syntax error") {
+			t.Fail("scoping-program-does-not-compile", fmt.Sprintf("%s: %s (documented rules: %s)", src, real, ref))
 			continue
 		}
 		if class(real) == "ERR-loop" {
